@@ -169,18 +169,24 @@ CLAIMED['C18'] = {
     'technique': 'Coq proof over a regenerated effect/call-graph summary (reachability closure by vm_compute, completeness by induction) + history differential',
 }
 CLAIMED['C19'] = {
-    'text': 'Theorems (Props/C19.v) about the hand model of error_html: for every value, escape_html_chars output contains no < or > '
-            'and a tag stripper recovers the value in any context; for every segment, delimiter triple (markup characters included), '
-            'line number, pending loop heading and error nodes with arbitrary messages, the text of a completed gen_seg call '
-            'stripped of tags is exactly: code-3 errors, heading, "<line>: <segment with every element and component>", then all '
-            'other segment and element errors of the nodes (minus the documented GE/GS suppression), and every tag in it is one of '
-            'the report\'s own; likewise the footer. The model is tied to error_html/err_iter by scripted differential runs (300 '
-            'scripts quick). Document level (one gen_seg call per source segment, in order, errors next to their segment) is checked '
-            'on the implementation with an independent stripper over the corpus and generated hostile documents.',
+    'text': 'PARTIAL (errors-shown clause false of the code). Theorems (Props/C19.v): (i) one gen_seg call — for every value the escaped '
+            'text contains no < or > and a tag stripper recovers the value in any context; for every segment, delimiter triple '
+            '(markup characters included), line number, pending heading and error nodes with arbitrary messages, the text written, '
+            'stripped of tags, is exactly: code-3 errors, heading, "<line>: <segment with every element and component>", then the '
+            'other segment and element errors of the nodes, with the report\'s own tags only; likewise the footer. (ii) the document '
+            '(C19_doc_calls, C19_doc_text, C19_doc_strip, C19_doc_nodes, C19_doc_errors_kept) over the whole-pipeline model, for ANY '
+            'environment, clock and text on which the run completes with the HTML sink on: gen_seg is called exactly once per source '
+            'segment, in source order, with that segment and its line number; the report is header ++ the writes of those calls ++ '
+            'footer and, stripped, the plain report of Spec/C19_doc_spec.v with the template\'s tags only; every node handed to a '
+            'call is a node of the error tree, a segment node is handed over at most once, printed errors stay in the final tree. '
+            '"Every reported error is shown exactly once" is FALSE of the code: C19_errors_not_all_shown (four completed runs on the '
+            'shipped maps), five recorded findings reproduced by the check on the implementation. The model is tied by scripted '
+            'differential runs of error_html/err_iter and by the pipeline correspondence; the oracle strips the implementation\'s '
+            'reports of corpus, hostile, dense and crafted documents with an independent stripper.',
     'design_ref': 'DESIGN.md §6 C19, §11',
-    'note': 'Trusted: Coq kernel; hand transcription Model/Html.v, ErrIter.v, Errh.v; Spec/C19_spec.v is my reading; extraction. '
-            'The document-level listing property is an oracle on the implementation, not yet a theorem.',
-    'technique': 'Coq proof (chunk calculus over the writer monad, 256-character sweeps for the escape function) + extracted-model correspondence + oracle',
+    'note': 'Trusted: Coq kernel; hand transcriptions Model/Html.v, ErrIter.v, Errh.v, Pipeline.v; Spec/C19_spec.v, C19_doc_spec.v; '
+            'extraction. Hypotheses kept in C19_doc_strip: the date string has no markup character; codes_plain for every call.',
+    'technique': 'Coq proof (chunk calculus over the writer monad, 256-character sweeps for the escape function; inversion of the pipeline run into per-segment views; depth-first key for the error iterator) + extracted-model correspondence + oracle',
 }
 CLAIMED['C12'] = {
     'text': 'PARTIAL. Theorem C12_reader_independent_partial: for every document (15 header fields + any body of segments writable with both '
@@ -254,14 +260,18 @@ CLAIMED['C06'] = {
     'text': 'PARTIAL. Theorems C06_997_envelope_recount / C06_999_envelope_recount: for EVERY error-handler state, whenever the visitor '
             'completes, the lines written are those of a segment list passing an independent recount: one ISA (16 elements), one GS, '
             'sets numbered 0001.. with SE01 = segments actually in the set, SE02 = ST02, GE01 = number of sets, GE02 = GS06, IEA01 = 1, '
-            'IEA02 = ISA13 (hypotheses: digit clock; for the 997 a GS06 without * and not ending in ~, shown necessary by a proved '
-            'counterexample). Not proved: re-reading the text without envelope error when echoed values contain the '
-            'acknowledgement\'s delimiters (recorded finding), the visitor raising (swallowed: cut-short acknowledgement), '
-            're-validation. The check parses, recounts, re-reads and re-validates every acknowledgement the implementation writes '
-            'for generated documents and compares the whole-pipeline model.',
+            'IEA02 = ISA13 (hypotheses: digit clock; for the 997 a GS06 without * and not ending in ~, shown necessary). '
+            'C06_recount_reader_silent: the reader given those segments reports no envelope error. C06_997_rereads / C06_999_rereads: '
+            'when every echoed value is free of ~ and *, the ISA fields have their widths and GS06 is not empty (computable '
+            'echo_clean on the handler state; each conjunct shown necessary by a proved counterexample), the TEXT written, tokenised '
+            'under any read schedule and read back, yields exactly those segments with no envelope error and nothing at end of '
+            'input. Not proved: the visitor raising (swallowed: cut-short acknowledgement), re-validation against the 997 / 999 map. '
+            'The check parses, recounts, re-reads and re-validates every acknowledgement the implementation writes for generated '
+            'documents and compares the whole-pipeline model. Recorded findings: echoed delimiter characters, mixed-version files, '
+            'empty source GS06.',
     'design_ref': 'DESIGN.md §6 C06, §11',
-    'note': 'Trusted: Coq kernel; hand transcriptions Ack997/Ack999/Errh/Writer/Pipeline; Spec/C06_spec.v recount; extraction.',
-    'technique': 'Coq proof (invariant over the visitor run; writer theorems of C11 reused for the 999) + extracted-model correspondence + oracle',
+    'note': 'Trusted: Coq kernel; hand transcriptions Ack997/Ack999/Errh/Writer/Reader/Raw/Pipeline; Spec/C06_spec.v recount; extraction.',
+    'technique': 'Coq proof (invariant over the visitor run; writer theorems of C11, reader theorems of C04 and tokeniser theorems of C01/C12 reused) + extracted-model correspondence + oracle',
 }
 CLAIMED['C09'] = {
     'text': 'PARTIAL. Theorem C09_no_loss_no_reorder_partial over the model of X12ContextReader.iter_segments: for every text, map '
